@@ -70,7 +70,15 @@ func (h *History) authFor(b *Branch, typ, sender string, stateKey *string, conte
 func (h *History) Send(r *Rng, b *Branch, typ, sender string, stateKey *string, content interface{}, ts int) *Ev {
 	auth := h.authFor(b, typ, sender, stateKey, content)
 	extra := map[string]interface{}{"origin_server_ts": ts, "depth": b.Depth + 1}
-	e := h.G.Mk(typ, sender, stateKey, content, []string{b.Tip}, auth, extra)
+	prev := []string{b.Tip}
+	// a reference named twice by one event (the parsers accept it) is one dependency (seeded change C11-r5m2)
+	if r.Chance(6) {
+		prev = append(prev, b.Tip)
+	}
+	if len(auth) > 0 && r.Chance(6) {
+		auth = append(append([]string{}, auth...), auth[r.Intn(len(auth))])
+	}
+	e := h.G.Mk(typ, sender, stateKey, content, prev, auth, extra)
 	if e == nil {
 		return nil
 	}
@@ -138,6 +146,9 @@ func GenHistoryOpt(r *Rng, ver string, size int, oddKeys bool) *History {
 	nextTS := func() int {
 		if !r.Chance(25) { // equal timestamps happen
 			h.ts += 1 + r.Intn(3)
+		}
+		if r.Chance(5) && h.ts > 14 { // ... and so do clocks running behind: a child stamped earlier than its parent
+			return h.ts - 1 - r.Intn(4)
 		}
 		return h.ts
 	}
